@@ -134,7 +134,7 @@ func (h Header) ContainsObject(obj parser.QueryExpression) (int, bool) {
 			continue
 		}
 
-		if !strings.EqualFold(f.Identifier, column) {
+		if !equalObjectIdentifiers(f.Identifier, column) {
 			continue
 		}
 
@@ -146,6 +146,55 @@ func (h Header) ContainsObject(obj parser.QueryExpression) (int, bool) {
 		return -1, false
 	}
 	return idx, true
+}
+
+// equalObjectIdentifiers compares the printed forms of two expressions: keywords, function names and column names are
+// not case sensitive, the texts of string literals and the names of variables are ('x' and 'X', @n and @N are
+// different operands, so the two expressions are different objects).
+func equalObjectIdentifiers(a string, b string) bool {
+	if !strings.EqualFold(a, b) {
+		return false
+	}
+	if a == b {
+		return true
+	}
+
+	ra, rb := []rune(a), []rune(b)
+	if len(ra) != len(rb) {
+		return true
+	}
+
+	inString, inVariable := false, false
+	for i := 0; i < len(ra); i++ {
+		switch {
+		case inString:
+			if ra[i] != rb[i] {
+				return false
+			}
+			if ra[i] == '\\' && i+1 < len(ra) {
+				i++
+				if ra[i] != rb[i] {
+					return false
+				}
+			} else if ra[i] == '\'' {
+				inString = false
+			}
+		case inVariable:
+			if ra[i] == '_' || ('0' <= ra[i] && ra[i] <= '9') || ('a' <= ra[i] && ra[i] <= 'z') || ('A' <= ra[i] && ra[i] <= 'Z') || 0x80 <= ra[i] {
+				if ra[i] != rb[i] {
+					return false
+				}
+			} else {
+				inVariable = false
+				inString = ra[i] == '\''
+			}
+		case ra[i] == '\'':
+			inString = true
+		case ra[i] == '@':
+			inVariable = true
+		}
+	}
+	return true
 }
 
 func (h Header) SearchIndex(fieldRef parser.QueryExpression) (int, error) {
